@@ -32,7 +32,8 @@ DECIDES = ('SPICommandInterface, for several (command_size, word_size) pairs: (a
            'word_received; (j) the read multiplexer, evaluated with last-assignment-wins for every configured and some '
            'unassigned addresses, selects that register\'s read value, all-ones for the auto-negotiation register and '
            'default_read_value otherwise -- the address space sampled contains every configured address, a few free ones and every '
-           'address that differs from a configured one in exactly one bit (so a decoder ignoring any single address bit is seen). ')
+           'address that differs from a configured one in exactly one bit (so a decoder ignoring any single address bit is seen); after a '
+           'complete data word the command state is reachable only through an edge that requires chip select released. ')
 NOT_DECIDED = ('cycle-level timing against a real SPI host (sck synchronisation, set-up of sdo before the first clock), '
                'behaviour when more bits than one transaction are clocked, the JTAG variant.')
 
